@@ -6,7 +6,10 @@ unregister(c) / fire(probe) on any component / k ticks of any current root.  The
 forest (parent per component, set of pending unregistrations, the root whose queue holds each probe) only to
 (1) enforce the statement's preconditions and (2) know which subtree was moved / detached as a whole.  The model
 learns that an unregistration COMPLETED by seeing the parent link reset on the real object (that is the statement's
-definition of "completed"); nothing is demanded about whether or when an unregistration completes.
+definition of "completed"); nothing is demanded about whether or when an unregistration completes.  register(c, p) is issued
+whatever state p is in (root, nested, its own or an ancestor's unregistration pending); if it raises, the state it leaves behind
+is judged like after any other step (see ASSUMPTIONS).  Announcements are matched to operations by BOTH arguments:
+registered(c, p) / unregistered(c, p) with p = the model's parent of c when the operation was issued / completed.
 """
 from simcore import world
 from simcore.runner import HarnessLimit
@@ -23,7 +26,7 @@ LEVEL_NOTE = ('trusted: the 40-line forest model (used for preconditions, for "w
               'the probe"), the observer handlers (priority > 0 so that they run before the library\'s own priority-0 handlers '
               'of the same event), CPython; operations are issued between ticks, never from inside a handler')
 RULE = ('each run = pool of 2-7 components + 6..max_ops operations (register with precondition from the model, unregister, '
-        'repeated unregister, fire probe, 1-3 ticks of any current root) + a final drain of all roots, all drawn from one tape; '
+        'repeated unregister, fire probe, 1-3 ticks of any current root; the new parent of a register may itself be pending) + a final drain of all roots, all drawn from one tape; '
         'non-trivial = >= 2 registrations, >= 1 completed unregistration, >= 1 probe dispatched and at least one subtree (a '
         'component with children) was registered or detached as a whole; distinct = distinct digest of the operation/dispatch log')
 STATE_MEASURE = 'forest shape after a step: (parent index per component, set of components with unregistration pending)'
@@ -36,8 +39,17 @@ ASSUMPTIONS = [
     '"completed unregistration" = the parent link of the component has been reset; that every unregister eventually completes is NOT '
     'demanded (unregister(parent) then unregister(child) before a tick leaves the child pending for ever: counted as '
     'obs:unregister-never-completes)',
-    '"announced by exactly one event" is read weakly: exactly one registered(c, p) / unregistered(c, ..) event object is dispatched '
-    'to at least one handler somewhere by the time every root has been drained; which components see it is not judged',
+    '"announced by exactly one event": exactly one registered(c, p) / unregistered(c, p) event object is dispatched to at least one '
+    'handler somewhere by the time every root has been drained; which components see it is not judged.  The event announces the '
+    'operation it NAMES: circuits documents both events as (component, manager) with manager = the component c was registered with / '
+    'unregistered from, so p is the parent given to register(c, p) resp. the parent c had when its unregistration was issued and '
+    'completed (it cannot change in between).  An event that names another manager (e.g. the root of the tree) or another component '
+    'announces an operation that did not happen and leaves the real one unannounced: reported as announcement-names-other-manager '
+    '(as many events as operations on c, wrong pair) or more-announcements-than-... (more events than operations on c)',
+    'an exception out of register() is not named by the statement and is not a violation by itself (obs:register-raised); '
+    'the state left behind is judged like after any step: if c.parent is p the registration counts as done (links, root, connectivity '
+    'as usual; its announcement is accepted but not demanded), if c.parent is c it counts as refused (nothing moved, nothing to '
+    'announce, c\'s queued probes no longer tracked), anything else fails the link / connected clauses (shape after-register-raised)',
     '"dispatched by its new root rather than lost": a probe that sat in c\'s own queue at register(c, p) must be dispatched exactly '
     'once, by the pass of the root that holds c\'s tree (the first tick of that root after the registration), not by anybody else',
     '"receives nothing further from its former tree": a handler of x is invoked during the tick of root T only if x is in T\'s tree when '
@@ -45,7 +57,8 @@ ASSUMPTIONS = [
     'detachment happens is not judged (observers run before the detaching handler)',
     'while an unregistration is pending the component is still attached: root stays the old root and it still receives events',
 ]
-PROBES = ['register-with-subtree', 'tree-depth>=3', 'register-under-nonroot', 'reregister-elsewhere', 'prereg-probe-moved', 'prereg-probe-dispatched',
+PROBES = ['register-with-subtree', 'tree-depth>=3', 'register-under-nonroot', 'register-under-pending-parent',
+          'unregister-completed-from-nonroot-parent', 'reregister-elsewhere', 'prereg-probe-moved', 'prereg-probe-dispatched',
           'unregister-with-subtree-completed', 'multi-unregister-before-tick', 'unregister-again-while-pending',
           'probe-dispatched-after-a-completion', 'tick-of-reattached-then-detached-root', 'obs:unregister-never-completes']
 TIERS = {
@@ -69,8 +82,9 @@ def run_one(ctx):
               next_pid=0, tick_events=[], recv=[], nreg=0, ncompl=0, ndisp_probe=0, subtree=False, unreg_since_tick=0, completion_seen=False)
     parent = [None] * n           # model: parent index, None = root
     pending = set()               # model: unregister() called, parent link not yet reset
-    reg_expected, reg_seen = {}, {}     # (c, p) -> count
-    completed, unreg_seen = [0] * n, [0] * n
+    # announcements, keyed by (event name, component, manager): 'need' = completed operations, 'may' = operations that may or may
+    # not count as completed (register() raised but left c a proper child of p), 'seen' = dispatched event objects
+    ann_need, ann_may, ann_seen = {}, {}, {}
     home = {}                     # pid -> index of the root whose queue holds the probe (model)
     prereg = set()                # pids that sat in c's own queue at register(c, p)
     pdisp = {}                    # pid -> number of dispatches
@@ -192,21 +206,27 @@ def run_one(ctx):
         elif nm in ('registered', 'unregistered'):
             ixs = tuple(getattr(o, 'ix', -1) for o in a)
             ctx.log('D', st['disp'], nm, T, *ixs)
-            if nm == 'registered':
-                key = ixs[:2]
-                reg_seen[key] = reg_seen.get(key, 0) + 1
-                # "each completed registration ... has been announced by exactly one registered event"
-                if reg_seen[key] > reg_expected.get(key, 0):
-                    viol('C07/registered/more-announcements-than-registrations', 'registered(c%d, c%d) dispatched %d times for %d register() calls'
-                         % (key[0], key[1], reg_seen[key], reg_expected.get(key, 0)))
-            else:
-                c = ixs[0] if ixs else -1
-                if 0 <= c < n:
-                    unreg_seen[c] += 1
-                    # "each completed ... unregistration has been announced by exactly one unregistered event"
-                    if unreg_seen[c] > completed[c]:
-                        viol('C07/unregistered/more-announcements-than-completions', 'unregistered(c%d, ..) dispatched %d times for %d completed '
-                             'unregistrations' % (c, unreg_seen[c], completed[c]))
+            # "each completed registration or unregistration has been announced by exactly one registered/unregistered event":
+            # the event announces the operation it names - (component, manager) = (c, the parent c was registered with /
+            # unregistered from); an event that names another pair announces another operation
+            key = (nm,) + (ixs + (-1, -1))[:2]
+            ann_seen[key] = ann_seen.get(key, 0) + 1
+            allowed = ann_need.get(key, 0) + ann_may.get(key, 0)
+            if ann_seen[key] > allowed and not ctx.violations:
+                what = 'register() calls' if nm == 'registered' else 'completed unregistrations'
+                # completed operations on the same component (any manager) against announcements naming it (any manager)
+                ops = sum(v for k, v in ann_need.items() if k[:2] == key[:2])
+                evs = sum(v for k, v in ann_seen.items() if k[:2] == key[:2])
+                if evs <= ops:
+                    done = sorted(k[2] for k, v in ann_need.items() if k[:2] == key[:2] and v > ann_seen.get(k, 0))
+                    viol('C07/%s/announcement-names-other-manager' % nm, '%s(%s) dispatched (%d time(s)) but only %d %s of c%d with that '
+                         'manager; the operation(s) on c%d that have no announcement yet are with %s'
+                         % (nm, ', '.join('c%d' % i if i >= 0 else '?' for i in key[1:]), ann_seen[key], allowed, what, key[1], key[1],
+                            ', '.join('c%d' % m for m in done)))
+                else:
+                    viol('C07/%s/more-announcements-than-%s' % (nm, 'registrations' if nm == 'registered' else 'completions'),
+                         '%s(%s) dispatched %d times for %d %s'
+                         % (nm, ', '.join('c%d' % i if i >= 0 else '?' for i in key[1:]), ann_seen[key], allowed, what))
         else:
             ctx.log('D', st['disp'], nm, T)
             if nm == 'exception':
@@ -243,7 +263,9 @@ def run_one(ctx):
         for c in sorted(pending):
             if comps[c].parent is comps[c]:
                 pending.discard(c)
-                completed[c] += 1
+                ann_need[('unregistered', c, parent[c])] = ann_need.get(('unregistered', c, parent[c]), 0) + 1
+                if parent[parent[c]] is not None:
+                    ctx.stat('unregister-completed-from-nonroot-parent')
                 st['ncompl'] += 1
                 st['completion_seen'] = True
                 sub = msub(c)
@@ -273,7 +295,10 @@ def run_one(ctx):
                 if k < 0 or comps[k].parent is not X:
                     return viol('C07/links/child-entry-without-parent-pointer/after-' + after,
                                 'c%d is in c%d.components but c%d.parent is %s' % (k, x, k, name(comps[k].parent) if k >= 0 else '?'))
-            # "every component's root is the top of the tree it is in"
+        for x in range(n):
+            X = comps[x]
+            # "every component's root is the top of the tree it is in" (after the links of all components, so that one broken
+            # link is always reported as that and not as the wrong root it causes elsewhere)
             top = rtop(X)
             if top is None:
                 return viol('C07/links/parent-cycle/after-' + after, 'following parent from c%d never reaches a top' % x)
@@ -306,11 +331,34 @@ def run_one(ctx):
     def do_register(c, p):
         T = mtop(p)
         moved = sorted(pid for pid, h in home.items() if h == c)
+        sub = msub(c)
+        if p in pending:
+            ctx.stat('register-under-pending-parent')
+        ctx.log('R', c, p)
+        ctx.trace('register c%d (subtree %s, own queue holds %s) under c%d (tree of root c%d%s)'
+                  % (c, ['c%d' % x for x in sub], ['probe#%d' % q for q in moved], p, T,
+                     '; unregistration of c%d pending' % p if p in pending else ''))
+        # register(c, p) is an operation of the quantifier whatever state p is in.  An exception out of it is not named by the
+        # statement; the state it leaves behind is judged like after any other step: c is either p's child (the registration
+        # happened: links, root, subtree and - optionally - the announcement are judged as usual) or still fully detached (it
+        # did not happen: nothing moved, nothing to announce); anything in between fails the link clauses below.
+        raised = None
+        try:
+            comps[c].register(comps[p])
+        except Exception as e:
+            raised = type(e).__name__
+            ctx.stat('obs:register-raised')
+            ctx.log('RX', c, p, raised)
+            ctx.trace('   register(c%d, c%d) raised %s; c%d.parent is now %s' % (c, p, raised, c, name(comps[c].parent)))
+        if raised is not None and comps[c].parent is not comps[p]:
+            for pid in moved:
+                home.pop(pid, None)        # refused registration: where c's queued events are now is not judged
+            check_graph('register-raised')
+            return
         for pid in moved:
             home[pid] = T
             prereg.add(pid)
             ctx.stat('prereg-probe-moved')
-        sub = msub(c)
         if len(sub) > 1:
             ctx.stat('register-with-subtree')
             st['subtree'] = True
@@ -322,13 +370,10 @@ def run_one(ctx):
         was_child[c] = True
         if max(len(manc(x)) for x in sub) >= 2:
             ctx.stat('tree-depth>=3')
-        reg_expected[(c, p)] = reg_expected.get((c, p), 0) + 1
+        book = ann_need if raised is None else ann_may
+        book[('registered', c, p)] = book.get(('registered', c, p), 0) + 1
         st['nreg'] += 1
-        ctx.log('R', c, p)
-        ctx.trace('register c%d (subtree %s, own queue holds %s) under c%d (tree of root c%d)'
-                  % (c, ['c%d' % x for x in sub], ['probe#%d' % q for q in moved], p, T))
-        comps[c].register(comps[p])
-        check_graph('register')
+        check_graph('register' if raised is None else 'register-raised')
 
     def do_unregister(c):
         again = c in pending
@@ -453,16 +498,13 @@ def run_one(ctx):
             viol('C07/queued-before-register/lost', 'probe(s) %r sat in a component\'s own queue when it was registered and were never '
                  'dispatched although every root has been drained' % (lost,))
     if not ctx.violations:
-        for key in sorted(reg_expected):
-            if reg_seen.get(key, 0) != reg_expected[key]:
-                viol('C07/registered/not-announced', 'register(c%d, c%d) was called %d time(s) but %d registered(c%d, c%d) event(s) were '
-                     'dispatched after draining every root' % (key[0], key[1], reg_expected[key], reg_seen.get(key, 0), key[0], key[1]))
-                break
-    if not ctx.violations:
-        for c in range(n):
-            if unreg_seen[c] != completed[c]:
-                viol('C07/unregistered/not-announced', '%d unregistration(s) of c%d completed but %d unregistered(c%d, ..) event(s) were '
-                     'dispatched after draining every root' % (completed[c], c, unreg_seen[c], c))
+        # (too many announcements were judged when they were dispatched; here: too few)
+        for key in sorted(ann_need):
+            if ann_seen.get(key, 0) < ann_need[key]:
+                nm, c, p = key
+                viol('C07/%s/not-announced' % nm, '%d %s c%d completed but %d %s(c%d, c%d) event(s) were dispatched after draining every root'
+                     % (ann_need[key], 'registration(s) of c%d under' % c if nm == 'registered' else 'unregistration(s) of c%d from' % c,
+                        p, ann_seen.get(key, 0), nm, c, p))
                 break
     if pending and not ctx.violations:
         ctx.stat('obs:unregister-never-completes', len(pending))
